@@ -49,6 +49,7 @@ type cfgSpec struct {
 	Host          bool     `json:"host_global,omitempty"`    // adds the host global c11_host
 	Variadic      bool     `json:"variadic,omitempty"`       // WithoutGlobals(a, b) instead of two WithoutGlobal
 	Family        string   `json:"family,omitempty"`         // deny-list family (built repeatedly: the list is applied in Go map order)
+	ReuseVM       bool     `json:"reuse_vm,omitempty"`       // the script runs through risor.WithVM on a VM that has already run under the default configuration
 }
 
 func (c cfgSpec) kind() string {
@@ -90,6 +91,9 @@ func (c cfgSpec) String() string {
 	}
 	for _, o := range c.Override {
 		p = append(p, "WithGlobalOverride("+o+", "+c.Repl+" c11_replacement)")
+	}
+	if c.ReuseVM {
+		p = append(p, "[on a VM that already ran under the default configuration]")
 	}
 	if len(p) == 0 {
 		return "default"
@@ -136,6 +140,13 @@ func (c cfgSpec) options() (opts []risor.Option, repl object.Object) {
 		opts = append(append(opts, over...), deny...)
 	} else {
 		opts = append(append(opts, deny...), over...)
+	}
+	if c.ReuseVM {
+		// a host that keeps one VM: it has evaluated something under the default configuration before
+		if m, err := vm.NewEmpty(); err == nil {
+			risor.Eval(context.Background(), "import math\n1", risor.WithVM(m))
+			opts = append(opts, risor.WithVM(m))
+		}
 	}
 	return opts, repl
 }
@@ -782,6 +793,14 @@ func Check(r *ev.Run, replay string) {
 		singles = append(singles, cfgSpec{Override: []string{n.Name}, Repl: "builtin"})
 	}
 	singles = append(singles, cfgSpec{NoDefaults: true}, cfgSpec{NoDefaults: true, Host: true})
+	// a host that keeps one VM (risor.WithVM): the VM has run under the default configuration, the
+	// script under test then runs on it with a whole module denied / without the defaults
+	for _, n := range u.names {
+		if n.IsModule {
+			singles = append(singles, cfgSpec{Deny: []string{n.Name}, ReuseVM: true})
+		}
+	}
+	singles = append(singles, cfgSpec{NoDefaults: true, ReuseVM: true})
 	all = append(all, singles...)
 	for _, n := range u.names {
 		all = append(all, cfgSpec{Override: []string{n.Name}, Repl: "module"})
